@@ -3,9 +3,11 @@ package codec
 import (
 	"bytes"
 	"encoding/json"
+	"errors"
 	"fmt"
 	"io"
 	"math"
+	"strings"
 	"testing/iotest"
 
 	"gonum.org/v1/gonum/mat"
@@ -180,6 +182,34 @@ var readers = []reader{
 	{"whole", func(b []byte) io.Reader { return bytes.NewReader(b) }},
 	{"onebyte", func(b []byte) io.Reader { return iotest.OneByteReader(bytes.NewReader(b)) }},
 	{"dataerr", func(b []byte) io.Reader { return iotest.DataErrReader(bytes.NewReader(b)) }},
+	// streams that break: the bytes are delivered and then the stream fails with an error that is not io.EOF
+	// (whole reads, one byte per call, and the last bytes delivered together with the error)
+	{"broken", func(b []byte) io.Reader { return io.MultiReader(bytes.NewReader(b), iotest.ErrReader(errBroken)) }},
+	{"broken-onebyte", func(b []byte) io.Reader {
+		return iotest.OneByteReader(io.MultiReader(bytes.NewReader(b), iotest.ErrReader(errBroken)))
+	}},
+	{"broken-dataerr", func(b []byte) io.Reader { return &dataThenErr{b: b} }},
+}
+
+var errBroken = errors.New("verif: the stream broke")
+
+// dataThenErr delivers at most 5 bytes per call and returns errBroken together with the last bytes.
+type dataThenErr struct{ b []byte }
+
+func (r *dataThenErr) Read(p []byte) (int, error) {
+	n := len(r.b)
+	if n > 5 {
+		n = 5
+	}
+	if n > len(p) {
+		n = len(p)
+	}
+	copy(p, r.b[:n])
+	r.b = r.b[n:]
+	if len(r.b) == 0 {
+		return n, errBroken
+	}
+	return n, nil
 }
 
 // decodeOne runs one decoder on one input. It returns ok (no error), the decoded value and the byte count.
@@ -388,7 +418,8 @@ func replayMat(in *core.Lines, args []string, seed int64, sum *core.Summary) err
 				}
 				runs := [][2]string{{"slice", ""}}
 				if c.Safe {
-					runs = append(runs, [2]string{"stream", "whole"}, [2]string{"stream", "onebyte"})
+					runs = append(runs, [2]string{"stream", "whole"}, [2]string{"stream", "onebyte"},
+						[2]string{"stream", "broken"}, [2]string{"stream", "broken-onebyte"}, [2]string{"stream", "broken-dataerr"})
 				} else {
 					sum.Count("stream_skipped_allocating_sizes", 1)
 				}
@@ -406,12 +437,17 @@ func replayMat(in *core.Lines, args []string, seed int64, sum *core.Summary) err
 						suffix = "-huge-dims"
 					}
 					sum.Count("dec_"+want+"_"+exp.Why, 1)
+					broken := strings.HasPrefix(ar[1], "broken")
 					if want == "ok" {
 						sum.Nontrivial++
 						wr, wc := c.R, c.C
 						switch {
 						case d.panicked:
 							sum.Fail("codec:"+who+":panic-on-valid", what+" panicked: "+d.text, raw)
+						case broken && d.err != nil && d.n <= len(b):
+							// the stream broke after everything the value needs had been delivered: a decoder that
+							// reads ahead may see the failure (the documentation does not exclude it); counted
+							sum.Count("broken_stream_after_complete_value_reported_as_error", 1)
 						case d.err != nil:
 							sum.Fail("codec:"+who+":rejects-valid", what+" returned error: "+d.err.Error(), raw)
 						case d.illformed != "":
@@ -431,6 +467,8 @@ func replayMat(in *core.Lines, args []string, seed int64, sum *core.Summary) err
 						sum.Fail("codec:"+who+":accepts-invalid"+suffix, what+" returned nil error; "+d.illformed, raw)
 					case d.err == nil:
 						sum.Fail("codec:"+who+":accepts-invalid"+suffix, fmt.Sprintf("%s returned nil error and a %dx%d value", what, d.r, d.c), raw)
+					case ar[0] == "stream" && (d.n < 0 || d.n > len(b)):
+						sum.Fail("codec:"+who+":count", fmt.Sprintf("%s returned n=%d with its error, the stream delivered %d bytes", what, d.n, len(b)), raw)
 					}
 				}
 			}
